@@ -10,3 +10,7 @@
 // be required to access the data again.
 
 pub mod node;
+
+#[cfg(kani)]
+#[path = "/verif/units/kani/leaf_mod.rs"]
+mod verif_kani;
